@@ -16,7 +16,96 @@ import (
 	"verif/engine/vexplore"
 	"verif/gen/pbfgen"
 	"verif/kit"
+	"verif/props/c08/files"
 )
+
+// scenarioF is a filtered scan of an arbitrary file with one predicate of the
+// shared menu per element kind. The consumer keeps every object; objects are
+// compared when returned and at the end of the execution.
+// encoded caches bytes and expected objects per file: every worker process
+// builds the whole scenario list, the work per scenario has to stay small.
+type encoded struct {
+	data []byte
+	all  []osm.Object
+}
+
+var encCache = map[*pbfgen.File]*encoded{}
+
+func encode(f *pbfgen.File) *encoded {
+	e := encCache[f]
+	if e == nil {
+		e = &encoded{data: f.Encode().Data, all: f.Expected()}
+		encCache[f] = e
+	}
+	return e
+}
+
+func scenarioF(name, family string, file *pbfgen.File, procs, bound int, preds [3]int, skip int) vexplore.Scenario {
+	return vexplore.Scenario{Name: name, Family: family, Bound: bound, MaxSteps: 400000, RacesAreFindings: true,
+		New: func() (func(), func(*vsched.Outcome) ([]vexplore.Finding, string, bool)) {
+			enc := encode(file)
+			var want []osm.Object
+			for _, o := range enc.all {
+				if files.Accepts(o, skip, preds) {
+					want = append(want, o)
+				}
+			}
+			var col pbfscen.Collected
+			var scanErr error
+			main := func() {
+				ctx, cancel := vsched.WithCancel(nil)
+				defer cancel()
+				rd := &pbfscen.Reader{Data: enc.data, BlockOnly: true}
+				s := osmpbf.New(ctx, rd, procs)
+				s.SkipNodes, s.SkipWays, s.SkipRelations = skip&1 != 0, skip&2 != 0, skip&4 != 0
+				if p := preds[0]; p != 0 {
+					s.FilterNode = func(n *osm.Node) bool {
+						vsched.Yield("filter")
+						return files.Pred(p, n)
+					}
+				}
+				if p := preds[1]; p != 0 {
+					s.FilterWay = func(w *osm.Way) bool {
+						vsched.Yield("filter")
+						return files.Pred(p, w)
+					}
+				}
+				if p := preds[2]; p != 0 {
+					s.FilterRelation = func(rl *osm.Relation) bool {
+						vsched.Yield("filter")
+						return files.Pred(p, rl)
+					}
+				}
+				for s.Scan() {
+					col.Take(s.Object(), want)
+					if len(col.Objects) > len(want)+4 {
+						break
+					}
+				}
+				scanErr = s.Err()
+				s.Close()
+			}
+			check := func(o *vsched.Outcome) ([]vexplore.Finding, string, bool) {
+				var fs []vexplore.Finding
+				add := func(k, m string) { fs = append(fs, vexplore.Finding{Key: "schedule/" + k, Msg: m}) }
+				tag := fmt.Sprint(files.IDs(col.Objects))
+				if o.Kind != "ok" {
+					add(o.Kind, o.Detail)
+					return fs, tag, true
+				}
+				if len(col.Objects) > len(want) {
+					add("extra-objects", fmt.Sprintf("delivered %v, want %v", files.IDs(col.Objects), files.IDs(want)))
+				} else if k, m := col.Judge(want, true); k != "" {
+					add(k, m)
+				}
+				if scanErr != nil {
+					add("scan-error", scanErr.Error())
+				}
+				return fs, tag, o.Threads > 3 && len(want) > 0 && len(want) < len(enc.all)
+			}
+			return main, check
+		}}
+}
 
 func scenario(procs, bound int, predName string, pred func(id int64) bool, skip int) vexplore.Scenario {
 	file := pbfscen.File(3, true)
@@ -85,7 +174,9 @@ func scenario(procs, bound int, predName string, pred func(id int64) bool, skip 
 
 func main() {
 	kit.Main("C08", "exploration", func(r *kit.Run) {
-		r.Rule("schedule part: 3-block file (dense, ways, relations; two elements each) x predicate in {even ids, odd ids} x skip-flag sets {none, nodes, ways+relations} x procs x every schedule with <= D deviations of the instrumented pipeline; filters yield per element")
+		r.Rule("schedule part: 3-block file (dense, ways, relations; two elements each) x predicate in {even ids, odd ids} x skip-flag sets {none, nodes, ways+relations} x procs x every schedule with <= D deviations of the instrumented pipeline; filters yield per element. " +
+			"grouped D=0: files of 14..45 blocks (thorough ..120) with 0-6 primitive groups per block x decoder counts 1,2,3,4,11 (thorough also 0,5,8) x predicate triples of the shared menu (even, reject-accept-accept, whole groups rejected/accepted, reject-all, hash of every field) x skip-flag sets, no deviations, both priority configurations: child-below = consumer scans at once, child-above = consumer runs only when every pipeline thread is blocked (decoders as far ahead as the channels allow, 13 blocks for one decoder); " +
+			"D=1: 14 two-object blocks, one decoder (thorough: grouped files of 14, 16, 30 blocks). Objects are compared when returned and at the end of the execution")
 		r.Assume("vinst's rewrite preserves behaviour; sequentially consistent scheduler")
 		var scs []vexplore.Scenario
 		type pd struct{ p, d int }
@@ -100,6 +191,60 @@ func main() {
 		for _, c := range cfg {
 			for _, skip := range []int{0, 1, 6} {
 				scs = append(scs, scenario(c.p, c.d, "even", even, skip), scenario(c.p, c.d, "odd", odd, skip))
+			}
+		}
+		// Many blocks of several groups each, no deviations: the two priority
+		// configurations are the two extreme consumers - child-below scans as soon as
+		// an object is there, child-above runs only when every pipeline thread is
+		// blocked, i.e. the decoders are as far ahead as the channels allow (13 blocks
+		// for one decoder) while the consumer still holds earlier objects.
+		pn := files.PredNames
+		triples := [][3]int{{3, 3, 3}, {7, 7, 7}, {9, 2, 7}, {10, 8, 4}, {13, 14, 13}}
+		skips := []int{0, 1, 6}
+		type mb struct{ procs, blocks int }
+		mbs := []mb{{1, 14}, {1, 16}, {2, 30}, {3, 45}, {4, 45}, {11, 30}}
+		if !r.Quick() {
+			mbs = append(mbs, mb{0, 14}, mb{11, 45})
+			triples = append(triples, [3]int{4, 4, 4}, [3]int{8, 8, 8}, [3]int{9, 9, 9}, [3]int{10, 10, 10}, [3]int{11, 12, 5}, [3]int{0, 10, 0})
+			skips = []int{0, 1, 2, 3, 4, 5, 6, 7}
+			mbs = append(mbs, mb{1, 45}, mb{2, 45}, mb{5, 60}, mb{8, 120})
+		}
+		grouped := map[int]*pbfgen.File{}
+		for _, m := range mbs {
+			if grouped[m.blocks] == nil {
+				grouped[m.blocks] = files.Grouped(m.blocks)
+			}
+			for _, t := range triples {
+				for _, skip := range skips {
+					live := false
+					for k := 0; k < 3; k++ {
+						live = live || (t[k] != 0 && skip&(1<<uint(k)) == 0)
+					}
+					if !live {
+						continue // every filtered kind skipped
+					}
+					name := fmt.Sprintf("grouped file procs=%d blocks=%d preds=%s/%s/%s skip=%03b", m.procs, m.blocks, pn[t[0]], pn[t[1]], pn[t[2]], skip)
+					scs = append(scs, scenarioF(name, fmt.Sprintf("grouped procs=%d blocks=%d D=0", m.procs, m.blocks), grouped[m.blocks], m.procs, 0, t, skip))
+				}
+			}
+		}
+		// one deviation anywhere at the ring boundary: 14 blocks for one decoder
+		// (quick: the two-objects-per-block file; thorough: the grouped files)
+		simple14 := pbfscen.File(14, true)
+		d1 := [][3]int{{3, 3, 3}}
+		if !r.Quick() {
+			d1 = append(d1, [3]int{4, 4, 4})
+		}
+		for _, t := range d1 {
+			name := fmt.Sprintf("two-object blocks procs=1 blocks=14 preds=%s/%s/%s skip=000 D=1", pn[t[0]], pn[t[1]], pn[t[2]])
+			scs = append(scs, scenarioF(name, "two-object blocks procs=1 blocks=14 D=1", simple14, 1, 1, t, 0))
+		}
+		if !r.Quick() {
+			for _, m := range []mb{{1, 14}, {1, 16}, {2, 30}} {
+				for _, t := range [][3]int{{7, 9, 4}, {10, 8, 3}} {
+					name := fmt.Sprintf("grouped file procs=%d blocks=%d preds=%s/%s/%s skip=000 D=1", m.procs, m.blocks, pn[t[0]], pn[t[1]], pn[t[2]])
+					scs = append(scs, scenarioF(name, fmt.Sprintf("grouped procs=%d blocks=%d D=1", m.procs, m.blocks), grouped[m.blocks], m.procs, 1, t, 0))
+				}
 			}
 		}
 		e := &vexplore.Explorer{R: r, Scenarios: scs}
